@@ -12,7 +12,7 @@ import ast
 
 from .. import nf
 from ..model import AnalysisError
-from ..values import EnumV, ExtObj, Inst, Num, RangeV, StrV, Vec
+from ..values import EnumV, ExtObj, GenV, Inst, Num, RangeV, StrV, Vec
 from .common import FCP, PLOT, POSITIVE, check_quadrature, interp, returns
 
 LEVEL = "other"
@@ -99,13 +99,14 @@ def check(ctx):
     def scale_uses(p, func):
         k = 0
         bad = []
-        for e in method_calls(p, func, "set"):
-            if True:
-                v = e.data["args"].get("xscale")
-                if isinstance(v, StrV) and v.s not in ("log", "linear", "symlog", "logit"):
-                    k += 1
-                    if v.s != scale_name:
-                        bad.append(v.s)
+        # ax.set(xscale=name) and ax.set_xscale(name) are the same request
+        vals = [e.data["args"].get("xscale") for e in method_calls(p, func, "set")]
+        vals += [e.data["args"].get("0", e.data["args"].get("value")) for e in method_calls(p, func, "set_xscale")]
+        for v in vals:
+            if isinstance(v, StrV) and v.s not in ("log", "linear", "symlog", "logit"):
+                k += 1
+                if v.s != scale_name:
+                    bad.append(v.s)
         return k, bad
 
     # recovery factor
@@ -153,7 +154,8 @@ def check(ctx):
     seen = set()
     for p in returns(it.run_function(q)):
         pl = plots(p, q)
-        loops = [e for e in p.events if e.kind == "for_iter" and e.func == q]
+        # the index loop over the stored rows (in the function itself or in a generator helper it consumes)
+        loops = [e for e in p.events if e.kind == "for_iter" and not isinstance(e.data["iter"], GenV) and (e.func == q or (isinstance(e.data["iter"], EnumV) and it.to_nf(e.data["iter"].inner) == PP))]
         # the selection predicate <index> % every == 0, whatever the index variable is called
         sel, ivar = None, None
         for k, c, d in p.decisions:
